@@ -292,6 +292,7 @@ func (x *Exec) callByContract(st *State, fr *Frame, callee *ssa.Function, fc *Fu
 		for _, a := range x.fc.Asserts {
 			if a.At == fmt.Sprintf("%s#%d", short, ord) || a.At == short {
 				cenv := x.envFor(st, x.entry, fr)
+				cenv.prev = x.innermostHead(st, st.frames[0])
 				for k, v := range st.snaps {
 					cenv.vars["$"+k] = v
 				}
@@ -312,6 +313,7 @@ func (x *Exec) callByContract(st *State, fr *Frame, callee *ssa.Function, fc *Fu
 		for _, a := range x.fc.Asserts {
 			if a.At == fmt.Sprintf("%s.%s#%d", via, short, ord) || (specific != "" && a.At == specific) {
 				cenv := x.envFor(st, x.entry, st.frames[0])
+				cenv.prev = x.innermostHead(st, st.frames[0])
 				for k, v := range st.snaps {
 					cenv.vars["$"+k] = v
 				}
@@ -1346,4 +1348,14 @@ func (x *Exec) chanPromises(st *State, kind, name string, v *Value, okT, cond st
 			}
 		}
 	}
+}
+
+// innermostHead: the recorded head state of the innermost loop of the verified function that is open
+// on this path (prev() in call-site assertions inside a loop refers to it).
+func (x *Exec) innermostHead(st *State, fr *Frame) *State {
+	if fr == nil || len(fr.Open) == 0 {
+		return nil
+	}
+	l := fr.Open[len(fr.Open)-1]
+	return st.heads[fmt.Sprintf("%p:%d", fr.Fn, l.Ordinal)]
 }
